@@ -67,7 +67,10 @@ def model(ctx):
     cex = {}
     small = dict(consts, MaxL=3)
     for dev, expect in DEVIATIONS.items():
-        r = tlc.run("CreatePipeline", tlc.make_cfg(constants=dict(small, Deviations='{"%s"}' % dev), invariants=INVS, properties=["Termination"]))
+        # (only the invariant the deviation is meant to break - which violated invariant TLC meets first must not depend on
+        # thread timing; the deadlock of NoSentinelOnError is found with the type invariant alone)
+        r = tlc.run("CreatePipeline", tlc.make_cfg(constants=dict(small, Deviations='{"%s"}' % dev),
+                                                   invariants=["TypeOK"] if expect == "deadlock" else [expect], properties=["Termination"]))
         ctx.add_tlc(f"CreatePipeline deviation {dev}", r)
         got = "deadlock" if r.error_kind == "deadlock" else r.error_name
         ctx.require(not r.ok and got == expect, f"deviation {dev}: expected {expect}, TLC says {r.error_kind} {r.error_name} (stale)")
